@@ -110,13 +110,28 @@ Theorem C12_handshake_window_local_refuted :
     /\ running_at c 1 7 = [].
 Proof. exact handshake_window_local_refuted. Qed.
 
-(* the "exactly" half (nothing from an instance that is not seen RUNNING) is not covered, and is false of the
-   model: a process STOPPING on an instance when that instance is lost stays listed there (DESIGN §6 F11) *)
-Theorem C12_lost_stopping_residue :
+(* ---- the "exactly" half: nothing lingers from an instance that is not seen RUNNING ---- *)
+(* Context.invalidate_failed (after fix 04680dd): no process lists a lost instance any more, whatever its state
+   there was (running-like or STOPPING). *)
+Theorem C12_invalidate_clears_lost : forall c iso now c', rstep c (InvalidateFailed iso now) = Ok c' ->
+  forall i, failed_b c i = true -> forall k p, aget k (r_procs c') = Some p -> zmem i (p_running p) = false.
+Proof. exact invalidate_clears_lost. Qed.
+
+(* For EVERY schedule (clean or not), at every point: an instance that j sees STOPPED is in no running set of j.
+   Still open: an instance ISOLATED by a refused AUTHORIZATION after a stale ALL_INFO was loaded in the same
+   CHECKING period (on_authorization isolates without invalidating); CHECKING / CHECKED / FAILED are transient. *)
+Theorem C12_no_residue_stopped : forall truths tr c, crun (cinit truths) tr = Ok c ->
+  forall j i nj, aget j (c_nodes c) = Some nj -> i <> j -> adm (cn_ctx nj) i = Some ISTOPPED ->
+    forall k p, aget k (r_procs (cn_ctx nj)) = Some p -> zmem i (p_running p) = false.
+Proof. exact no_residue_stopped. Qed.
+
+(* the schedule that left a residue before the fix (process STOPPING on an instance that is then lost) *)
+Theorem C12_lost_stopping_cleared :
   clean (cinit w_truths) w_residue = true
   /\ (let c := final_of w_truths w_residue in
-      quiescent c = true /\ sees c 1 2 = Some ISTOPPED /\ running_at c 1 7 = [2]).
-Proof. exact lost_stopping_residue. Qed.
+      quiescent c = true /\ sees c 1 2 = Some ISTOPPED /\ running_at c 1 7 = []
+      /\ view_of c 1 7 2 = Some (FATAL, false)).
+Proof. exact lost_stopping_cleared. Qed.
 
 (* while a process is STOPPING, `running_identifiers` depends on when the instance was admitted *)
 Theorem C12_stopping_membership_differs :
